@@ -46,11 +46,11 @@ func (d *wxRec) fileDoy() int {
 	return d.Date.DOY()
 }
 
-// modelYD: (year, day of year) of the line as the readers see it; an unparsable date is the zero
-// time (year 1, day 1)
+// modelYD: (year, day of year) of the line for the model driver; year 0 = the date token does not
+// parse
 func (d *wxRec) modelYD() (int, int) {
 	if d.BadDate {
-		return 1, 1
+		return 0, 0
 	}
 	return d.Date.Y, d.Date.DOY()
 }
@@ -482,7 +482,7 @@ func readerKernelStage(c *vh.Ctx, n int) {
 		case "bad-date":
 			// the record of that day is unusable: the day is not covered, the reader must say so
 			if err == nil && sc.Dropped != "" {
-				violate04(c, "search", fmt.Sprintf("reader:accepts:bad-date-line:fmt%d", layout), "reader returns no error for a file with an "+sc.Dropped+" (the line is skipped as 'before the start year', its slot stays zero)", sc)
+				violate04(c, "search", fmt.Sprintf("reader:accepts:bad-date-line:fmt%d", layout), "reader returns no error for a file with an "+sc.Dropped+" (the day of that line is not covered)", sc)
 			}
 		case "gap", "gap-1day", "gap-year-end", "year-jump":
 			// a series with missing days must be rejected (a duplicated line is not a gap: not judged)
@@ -573,6 +573,9 @@ func yearFileKernelStage(c *vh.Ctx, n int) {
 				}
 				if class == "empty" {
 					status = "empty"
+				}
+				if class == "extra-day" {
+					status = "beyond"
 				}
 			}
 			ld := "Lerr"
